@@ -38,7 +38,8 @@ Import ListNotations.
 Local Open Scope Z_scope.
 """
 
-OBS_KINDS = ["box1", "box2", "box3", "image_hwc", "image_chw", "image_gray", "discrete", "multidiscrete", "multibinary", "multibinary2", "dict", "dict_img"]
+RANK0_SIG = "box-rank0-observation-rejected"
+OBS_KINDS = ["box0", "box4", "box1", "box2", "box3", "image_hwc", "image_chw", "image_gray", "discrete", "multidiscrete", "multibinary", "multibinary2", "dict", "dict_img"]
 ACT_KINDS = ["box", "box_asym", "box_md", "discrete", "multidiscrete", "multibinary"]
 
 
@@ -77,6 +78,8 @@ def make_spaces(case):
         "box1": lambda: spaces.Box(-3, 3, (d[0],), dtype=np.float32),
         "box2": lambda: spaces.Box(-3, 3, (d[0], d[1]), dtype=np.float32),
         "box3": lambda: spaces.Box(-3, 3, (d[0], d[1], d[2]), dtype=np.float32),
+        "box0": lambda: spaces.Box(-3, 3, (), dtype=np.float32),
+        "box4": lambda: spaces.Box(-3, 3, (d[0], 2, d[1], d[2]), dtype=np.float32),
         "image_hwc": lambda: spaces.Box(0, 255, (36, 36, 3), dtype=np.uint8),
         "image_chw": lambda: spaces.Box(0, 255, (3, 36, 36), dtype=np.uint8),
         "image_gray": lambda: spaces.Box(0, 255, (36, 40, 1), dtype=np.uint8),
@@ -228,7 +231,7 @@ def run_impl(case):
     trials = []
 
     def trial(name, obs, det=True, eps=None, is_int=False):
-        rec = {"name": name, "in_shape": shape_of(obs), "is_int": is_int, "eps": eps}
+        rec = {"name": name, "in_shape": shape_of(obs), "is_int": is_int, "eps": eps, "in_keys": list(obs.keys()) if isinstance(obs, dict) else None}
         before = copy.deepcopy(obs)
         p0 = params_bytes()
         del feats[:]
@@ -293,6 +296,13 @@ def run_impl(case):
         trial("dict_mixed_n", mixed)
         mixed1 = {k: (batch([one])[k] if j == 0 else np.asarray(one[k])) for j, k in enumerate(keys)}
         trial("dict_mixed_1", mixed1)
+        # a malformed key AFTER a properly batched one is not validated any more (`vectorized_env or ...` short-circuits);
+        # the same arrays with the malformed key FIRST are rejected: acceptance depends on the key order
+        if len(keys) >= 2:
+            bm_ = batch(many)
+            late = {k: (np.asarray(bm_[k])[:, None] if j == len(keys) - 1 else bm_[k]) for j, k in enumerate(keys)}
+            trial("dict_extra_axis_late", late)
+            trial("dict_extra_axis_first", {k: late[k] for k in reversed(keys)})
     # float32 copies of images given to predict() for a uint8 image space must be scaled like the uint8 originals
     if has_img:
         def as_float(o, space_):
@@ -360,6 +370,8 @@ def run_impl(case):
         f = np.asarray(f)
         if isinstance(space_, (spaces.Discrete, spaces.MultiDiscrete)) and f.ndim == exp.ndim + 1 and f.shape[1] == 1:
             f = f.reshape(f.shape[0], -1)
+        if isinstance(space_, spaces.Box) and space_.shape == () and f.size == exp.size:
+            f = f.reshape(exp.shape)          # buffers keep rank-0 observations as (n, 1)
         return f
 
     def check_feat(tag, got, obs_batch):
@@ -414,6 +426,9 @@ def run_impl(case):
             md_row = {"nvec": [int(x) for x in pspace.nvec], "vals": [int(x) for x in np.asarray(one).reshape(-1)], "feat": np.asarray(rec["feat"]).reshape(-1).astype(int).tolist()}
     extra["md_row"] = md_row
     for rec in trials:
+        if rec["name"] == "single" and isinstance(pspace, spaces.Discrete) and rec.get("feat") is not None:
+            extra["oh_row"] = {"n": int(pspace.n), "v": int(one), "feat": np.asarray(rec["feat"]).reshape(-1).astype(int).tolist()}
+    for rec in trials:
         got = rec.pop("feat", None)
         gotd = rec.pop("feat_dict", None)
         g = gotd if isinstance(pspace, spaces.Dict) else got
@@ -467,13 +482,14 @@ def model_exprs(case, impl):
     ps, ash = impl["pspace"], coq_list(impl["ashape"], coq_Z)
     for t in impl["trials"]:
         if ps["kind"] == "dict":
-            keys = list(ps["keys"])
+            keys = t.get("in_keys") or list(ps["keys"])      # iteration order of the observation dict that was passed
             ex.append(f"check_predict_dict {coq_list([coq_space(ps['keys'][k]) for k in keys])} {ash} {coq_list([coq_list(t['in_shape'][k], coq_Z) for k in keys])}")
         else:
             ex.append(f"check_predict {coq_space(ps)} {ash} {coq_list(t['in_shape'], coq_Z)}")
-    if ps["kind"] == "discrete":
-        ex.append(f"onehot {coq_nat(ps['n'])} {coq_nat(ps['n'] // 2)}")
     xt = impl.get("extra", {})
+    if ps["kind"] == "discrete":
+        oh = xt.get("oh_row") or {"n": ps["n"], "v": ps["n"] // 2}
+        ex.append(f"onehot {coq_nat(oh['n'])} {coq_nat(oh['v'])}")
     if xt.get("md_row"):
         ex.append(f"onehot_concat {coq_list(xt['md_row']['nvec'], coq_nat)} {coq_list(xt['md_row']['vals'], coq_nat)}")
     ll = xt.get("lowlevel")
@@ -572,9 +588,14 @@ def judge(case, impl, vals):
             k += 1
     if ps["kind"] == "discrete":
         oh = vals[len(impl["trials"])]
-        n = ps["n"]
-        if oh != [1 if j == n // 2 else 0 for j in range(n)]:
-            probs.append(("model-correspondence-onehot", f"model onehot {oh}"))
+        row = impl.get("extra", {}).get("oh_row")
+        if row and oh != row["feat"]:
+            probs.append(("model-correspondence-onehot", f"Discrete({row['n']}) observation {row['v']}: the network input is {row['feat']}, Model.Shapes.onehot gives {oh}"))
+    if ps["kind"] == "box" and ps["shape"] == []:
+        # finding: Box observation spaces of rank 0 are rejected by the network (Flatten(start_dim=1)); classified precisely: only the
+        # rejection of well-formed inputs of such a space
+        probs = [((RANK0_SIG, "Box(shape=()) observation space: " + m) if sg in ("oracle-wellformed-input-rejected", "oracle-state-argument-rejected", "oracle-lowlevel-call-failed", "oracle-training-features")
+                 and "IndexError" in m else (sg, m)) for sg, m in probs]
     return probs
 
 
@@ -699,7 +720,10 @@ def main():
                 hist["trial_kinds"][t["name"]] = hist["trial_kinds"].get(t["name"], 0) + 1
                 hist["rejected_inputs"] += int("exception" in t)
                 distinct.add(json.dumps([im["pspace"], im["ashape"], t["in_shape"], t["eps"] is not None], sort_keys=True))
-        if probs and len(chk.violations) < 3:
+        if any(sg == RANK0_SIG for sg, _ in probs) and not any(v["signature"] == RANK0_SIG for v in chk.violations):
+            chk.violation(RANK0_SIG, "; ".join(m for sg, m in probs if sg == RANK0_SIG)[:700], {"case": c, "problems": [q for q in probs if q[0] == RANK0_SIG][:6]}, found_input=True)
+        probs = [q for q in probs if q[0] != RANK0_SIG]
+        if probs and len([v for v in chk.violations if v["signature"] != RANK0_SIG]) < 3:
             oracle_bad = [s for s, _ in probs if s.startswith("oracle-")]
             sig = oracle_bad[0] if oracle_bad else probs[0][0]
             chk.violation(sig, "; ".join(m for s, m in probs if s == sig)[:700],
